@@ -394,33 +394,45 @@ where
     ) -> Result<group_types::GroupExporterSecret, Error> {
         let group = self.load_mls_group(group_id)?.ok_or(Error::GroupNotFound)?;
 
-        match self
+        let stored = self
             .storage()
             .get_group_exporter_secret(group_id, group.epoch().as_u64())
-            .map_err(|e| Error::Group(e.to_string()))?
-        {
-            Some(group_exporter_secret) => Ok(group_exporter_secret),
-            // If it's not already in the storage, export the secret and save it
-            None => {
-                let export_secret: [u8; 32] = group
-                    .export_secret(self.provider.crypto(), "nostr", b"nostr", 32)?
-                    .try_into()
-                    .map_err(|_| {
-                        Error::Group("Failed to convert export secret to [u8; 32]".to_string())
-                    })?;
-                let group_exporter_secret = group_types::GroupExporterSecret {
-                    mls_group_id: group_id.clone(),
-                    epoch: group.epoch().as_u64(),
-                    secret: mdk_storage_traits::Secret::new(export_secret),
-                };
+            .map_err(|e| Error::Group(e.to_string()))?;
 
-                self.storage()
-                    .save_group_exporter_secret(group_exporter_secret.clone())
-                    .map_err(|e| Error::Group(e.to_string()))?;
-
-                Ok(group_exporter_secret)
+        // The secret of the CURRENT epoch is derived from the MLS group itself. A stored one for the
+        // same epoch number may stem from another branch of the group's history that was held
+        // earlier (the member was removed and re-invited while it had moved on along a branch of
+        // its own): trusting it would cut the member off from everybody else's traffic.
+        let exported = group.export_secret(self.provider.crypto(), "nostr", b"nostr", 32);
+        let export_secret: [u8; 32] = match (exported, stored) {
+            // (an evicted group can no longer export: keep answering with what is stored)
+            (Err(_), Some(stored)) => return Ok(stored),
+            (Err(e), None) => return Err(e.into()),
+            (Ok(secret), stored) => {
+                let secret: [u8; 32] = secret.try_into().map_err(|_| {
+                    Error::Group("Failed to convert export secret to [u8; 32]".to_string())
+                })?;
+                if let Some(stored) = stored
+                    && stored.secret.as_ref() == &secret
+                {
+                    return Ok(stored);
+                }
+                secret
             }
-        }
+        };
+
+        // Not in the storage yet (or stale): save the derived secret
+        let group_exporter_secret = group_types::GroupExporterSecret {
+            mls_group_id: group_id.clone(),
+            epoch: group.epoch().as_u64(),
+            secret: mdk_storage_traits::Secret::new(export_secret),
+        };
+
+        self.storage()
+            .save_group_exporter_secret(group_exporter_secret.clone())
+            .map_err(|e| Error::Group(e.to_string()))?;
+
+        Ok(group_exporter_secret)
     }
 
     /// Retrieves a MDK group by its MLS group ID
